@@ -260,3 +260,28 @@ def anchor_fn(ctx, rule, role, fns):
     ctx.bad(rule, "missing-anchor/" + role, "", "role `%s` resolved to %d constructs (expected exactly 1): %s" % (
         role, len(fns), [f["path"] if isinstance(f, dict) else f[0]["path"] for f in fns][:6]))
     return None
+
+
+def syms_by_type(N, table):
+    """{local id: symbol} for `let` locals whose (peeled) type starts with a key of `table` ({type prefix: symbol})"""
+    out = {}
+    for lid, (origin, path, pat) in N.defs.items():
+        if origin[0] != "let" or path:
+            continue
+        ty = peel(pat.get("ty", ""))
+        for pref, sym in table.items():
+            if ty.startswith(pref):
+                out[lid] = sym
+    return out
+
+
+def expect_fn(ctx, rule, key, suffix, expected, why, crate=None, syms_table=None):
+    fn = fn1(ctx.P, suffix, crate)
+    if fn is None:
+        ctx.bad(rule, "missing-anchor/" + suffix, "", "function `%s` not found (or ambiguous)" % suffix)
+        return None
+    N = Norm(fn)
+    syms = syms_by_type(N, syms_table) if syms_table else None
+    t = N.term(fn["body"], syms)
+    expect_term(ctx, rule, key, fn["sp"], t, expected, why)
+    return fn, N
